@@ -55,6 +55,7 @@ def build(tier, seed):
     names = list(c17.TREES)
     nrand = 6 if tier == "quick" else 40
     tasks = [a_task(PROP, _walk), a_task(PROP, _path), a_task(PROP, _writeout), Task(f"{PROP}.S.structural", PROP, "structural", lambda: pages.structural(PROP)),
+             Task(f"{PROP}.S.template_globals", PROP, "BasePage.template", lambda: pages.template_globals_obligation(PROP, lambda: __import__("bounded.c17", fromlist=["x"]).search(nrandom=0, names=("three levels",)))),
              Task(f"{PROP}.S.alias_priority", PROP, "AliasExtension.extendMarkdown", lambda: pages.alias_priority_obligation(PROP, lambda: __import__("bounded.c17", fromlist=["x"]).search(nrandom=0, names=("aliases in raw html",))))]
     tasks += [bd_task((n,), n.replace(" ", "_").replace("-", "_"), seed) for n in names]
 
